@@ -589,6 +589,8 @@ def _on_every_path(ck: Check, reg: AlgoRegistry, learn: Fn, lcfg: CFG, site_fn: 
     # must post-dominate entry (non-delayed) or the branch entry (delayed)
     if delayed:
         # the delayed actor optimizer must step under the same condition (same normalised test)
+        # a condition written in a helper of learn() is compared after its parameters have been replaced by the expressions
+        # learn() passes for them, so that both sides speak about learn()'s own variables (whatever they are called)
         test_txt = {ast.unparse(g) for g in delayed}
         opt_tests: Set[str] = set()
         actor_opts = [o.name for o in reg.opts if any(g.policy and g.eval in o.networks for g in reg.groups)]
@@ -601,7 +603,7 @@ def _on_every_path(ck: Check, reg: AlgoRegistry, learn: Fn, lcfg: CFG, site_fn: 
                         nn = mcfg.node_of(c)
                         for g, pol, _ in (mcfg.guards_at(nn) if nn else []):
                             if "policy_freq" in ast.unparse(g) and pol:
-                                opt_tests.add(ast.unparse(g))
+                                opt_tests |= _as_seen_from(learn, m, g)
         ck.ob("C08.4", learn, site, bool(opt_tests) and test_txt <= opt_tests,
               f"{cname}: the delayed soft update and the delayed actor step use the same policy-delay condition",
               detail=f"soft update under {sorted(test_txt)}, actor step under {sorted(opt_tests)}",
@@ -624,6 +626,39 @@ def _on_every_path(ck: Check, reg: AlgoRegistry, learn: Fn, lcfg: CFG, site_fn: 
               f"{cname}: every normal path through learn() performs the soft update of `{t_attr}`",
               detail="there is a path from the entry of learn() to a return that bypasses the soft update",
               construct=f"{cname}: soft update {e_attr}->{t_attr} on all paths")
+
+
+def _as_seen_from(caller: Fn, m: Fn, g: ast.AST) -> Set[str]:
+    """Texts of expression g (of method m) in the vocabulary of `caller`: g itself when m is the caller, otherwise g with every
+    parameter of m replaced by the argument bound to it, once per call `self.m(...)` in the caller."""
+    if m is caller:
+        return {ast.unparse(g)}
+    import copy
+    from ..terms import bind_arg
+
+    class _Subst(ast.NodeTransformer):
+        def __init__(self, call: ast.Call):
+            self.call = call
+            self.ok = True
+
+        def visit_Name(self, x: ast.Name) -> ast.AST:
+            if x.id in m.named_params[1:]:
+                arg = bind_arg(m, self.call, x.id)
+                if arg is None:
+                    self.ok = False
+                    return x
+                return copy.deepcopy(arg)
+            return x
+
+    out: Set[str] = set()
+    for c in calls_in(caller.node):
+        if call_name(c) == f"self.{m.name}":
+            sub = _Subst(c)
+            g2 = sub.visit(copy.deepcopy(g))
+            if sub.ok:
+                out.add(ast.unparse(ast.fix_missing_locations(g2)))
+    # not called from the caller directly (reached through another helper): compared as written, as before
+    return out or {ast.unparse(g)}
 
 
 _D = "agilerl/algorithms/dqn.py"
@@ -662,6 +697,8 @@ VARIANTS = [
     ("maddpg-zip-misaligned", _MA, "        for actor, actor_target, critic, critic_target in zip(\n            self.actors, self.actor_targets, self.critics, self.critic_targets\n        ):",
      "        for actor, actor_target, critic, critic_target in zip(\n            self.actors, self.critic_targets, self.critics, self.actor_targets\n        ):", "fire", "C08.4"),
     ("matd3-min-dropped", _MT, "rewards[agent_id] + (1 - dones[agent_id]) * self.gamma * q_value_next_state", "rewards[agent_id] + (1 - dones[agent_id]) * q_value_next_state", "fire", "C08.1"),
+    ("matd3-delay-condition-differs", _MT, "        self.learn_counter[agent_id] += 1\n        if self.learn_counter[agent_id] % self.policy_freq == 0:", "        self.learn_counter[agent_id] += 1\n        if self.learn_counter[agent_id] % self.policy_freq == 1:", "fire", "C08.4"),
+    ("matd3-delay-counter-of-other-agent", _MT, "        self.learn_counter[agent_id] += 1\n        if self.learn_counter[agent_id] % self.policy_freq == 0:", "        self.learn_counter[agent_id] += 1\n        if self.learn_counter[idx] % self.policy_freq == 0:", "fire", "C08.4"),
     ("rainbow-no-mask", _R, "t_z = rewards + (1 - dones) * gamma * self.support", "t_z = rewards + gamma * self.support", "fire", "C08.2"),
     ("rainbow-eval-dist", _R, "target_q_dist = self.actor_target(next_states, q=False)", "target_q_dist = self.actor(next_states, q=False)", "fire", "C08.1"),
     ("rainbow-soft-update-before-step", _R, "        # soft update target network\n        self.soft_update()\n        self.actor.reset_noise()", "        self.actor.reset_noise()", "fire", "C08.4"),
